@@ -704,6 +704,12 @@ fn apply_offset(
     }
 
     let mut pixmap = tiny_skia::Pixmap::try_create(input.width(), input.height())?;
+
+    // An offset that moves the whole image out of its own bounds leaves nothing.
+    if dx.abs() >= input.width() as f32 || dy.abs() >= input.height() as f32 {
+        return Ok(Image::from_image(pixmap, input.color_space));
+    }
+
     pixmap.draw_pixmap(
         dx as i32,
         dy as i32,
